@@ -283,8 +283,18 @@ Fixpoint digits_val (s : str) (acc : N) : option N :=
   | [] => Some acc
   | c :: r => if is_digit c then digits_val r (acc * 10 + (c - 48))%N else None
   end.
-(* int(token) for ASCII digits with an optional sign (blanks, underscores, non-ASCII digits: outside the fragment) *)
-Definition parse_int (s : str) : option Z :=
+(* core/transforms.py:107 (repo fix 5f4626e6, RFC 6901): an array token is an index only if it is ASCII digits, and
+   either the single digit 0 or without a leading zero; no sign, blanks, underscores or non-ASCII digits *)
+Definition parse_index (s : str) : option Z :=
+  match s with
+  | [] => None
+  | c :: r =>
+      if N.eqb c 48 then match r with [] => Some 0%Z | _ => None end
+      else option_map Z.of_N (digits_val s 0)
+  end.
+(* SENTINEL, not the code any more: the int(token) rule used before 5f4626e6 (optional sign, leading zeros, hence
+   Python negative indices: /tags/-1 was the last tag).  Kept to show the two rules differ (C07_pointer_rule_differs). *)
+Definition parse_int_legacy (s : str) : option Z :=
   match s with
   | [] => None
   | c :: r =>
@@ -292,30 +302,32 @@ Definition parse_int (s : str) : option Z :=
       else if N.eqb c 43 then match r with [] => None | _ => option_map Z.of_N (digits_val r 0) end
       else option_map Z.of_N (digits_val s 0)
   end.
-(* list[i] with Python negative indices *)
+(* list[i] with Python negative indices (only reachable through the legacy rule) *)
 Definition py_index {A} (l : list A) (i : Z) : option A :=
   if (0 <=? i)%Z then nth_error l (Z.to_nat i)
   else if (0 <=? Z.of_nat (length l) + i)%Z then nth_error l (Z.to_nat (Z.of_nat (length l) + i)) else None.
 
-Fixpoint resolve_tokens (tokens : list str) (j : json) : option json :=
+Fixpoint resolve_tokens_with (index : str -> option Z) (tokens : list str) (j : json) : option json :=
   match tokens with
   | [] => Some j
   | t :: r =>
       match j with
-      | JObj kvs => match assoc_get t kvs with Some v => resolve_tokens r v | None => None end
-      | JArr l => match parse_int t with
-                  | Some i => match py_index l i with Some v => resolve_tokens r v | None => None end
+      | JObj kvs => match assoc_get t kvs with Some v => resolve_tokens_with index r v | None => None end
+      | JArr l => match index t with
+                  | Some i => match py_index l i with Some v => resolve_tokens_with index r v | None => None end
                   | None => None
                   end
       | _ => None
       end
   end.
 (* None = UNRESOLVABLE *)
-Definition resolve_pointer (document : json) (pointer : str) : option json :=
+Definition resolve_pointer_with (index : str -> option Z) (document : json) (pointer : str) : option json :=
   match pointer with
   | [] => Some document
-  | c :: _ => if N.eqb c 47 then resolve_tokens (map unescape (tl (split_on 47 pointer))) document else None
+  | c :: _ => if N.eqb c 47 then resolve_tokens_with index (map unescape (tl (split_on 47 pointer))) document else None
   end.
+Definition resolve_pointer : json -> str -> option json := resolve_pointer_with parse_index.
+Definition resolve_pointer_legacy : json -> str -> option json := resolve_pointer_with parse_int_legacy.
 
 (* op_eq = true for ==, false for != ; evaluated on definition.RESOLVED *)
 Definition expr_filter (pointer : str) (op_eq : bool) (value : json) (c : ctx) : bool :=
